@@ -1297,6 +1297,8 @@ impl<'a> Fx<'a> {
             ("map", 1) => format!("(Rust.map {} {})", recv, a),
             ("filter_map", 1) => format!("(Rust.filter_map {} {})", recv, a),
             ("find", 1) => format!("(Rust.find {} {})", recv, a),
+            ("any", 1) => format!("(Rust.iter_any {} {})", recv, a),
+            ("all", 1) => format!("(Rust.iter_all {} {})", recv, a),
             ("max", 0) => format!("(Rust.iter_max {})", recv),
             ("min", 0) => format!("(Rust.iter_min {})", recv),
             ("max", 1) => format!("(Rust.max {} {})", recv, a),
